@@ -1,6 +1,7 @@
 """C05 - the incremental payload stream obeys the delivery protocol."""
 from __future__ import annotations
 
+import asyncio
 import itertools
 import random
 
@@ -17,7 +18,7 @@ LEVEL_TEXT = ("(A) every end-to-end run of generated @defer/@stream requests (sc
 LEVEL_NOTE = ("trusted: the automaton (vf/ref/incremental.py); part B constructs internal objects (DeliveryGroup, ExecutionGroup, ItemStream, Computation, WorkQueue, "
               "IncrementalPublisher) - if a refactoring changes those constructors, B reports unavailable and A alone decides")
 TECHNIQUE = "runtime monitoring: protocol automaton over recorded payload streams; bounded-exhaustive schedule exploration (DFS) of the real scheduler on synthetic work graphs"
-RULE = ("(A) as C04; (B) work graphs: 1-2 root groups, optional child group, 1-3 tasks each in 1-2 groups, outcome ok / fail / ok-with-nested (child group + task, or stream), "
+RULE = ("(A) as C04; (B) work graphs: 1-2 root groups, optional child group, 1-3 tasks each in 1-2 groups, outcome ok / fail / cancelled / ok-with-nested (child group + task, or stream), "
         "0-1 root stream with script in {[items,stop],[items,items,stop],[items,fail],[stop],[fail],[items+peek-stop]}; per graph DFS over all action orders (cap 150 quick / 1500 thorough). "
         "Non-trivial: the stream had >= 2 payloads; distinct = (graph or document, interleaving signature).")
 ASSUMPTIONS = ["within one payload entries are processed in the order pending, incremental, completed"]
@@ -94,7 +95,7 @@ def graph_specs(rng, n, thorough):
     """Yield work-graph specifications (plain data)."""
     stream_scripts = [None, [('items', 1), ('stop',)], [('items', 2), ('items', 1), ('stop',)], [('items', 1), ('fail',)], [('stop',)], [('fail',)],
                       [('items', 2, 'peek-stop')]]
-    outcomes = ['ok', 'fail', 'ok+child', 'ok+stream']
+    outcomes = ['ok', 'fail', 'ok+child', 'ok+stream', 'cancel']
     for _ in range(n):
         ngroups = rng.choice([1, 1, 2])
         child = rng.random() < 0.5
@@ -158,6 +159,10 @@ def run_graph(spec, script, rng, I):
         def finish():
             if outcome == 'fail':
                 raise RuntimeError(f'{tname} failed')
+            if outcome == 'cancel':
+                # what the task sees when something it awaits is cancelled from outside: its own future ends up cancelled,
+                # which is a failure of the task like any other
+                raise asyncio.CancelledError
             work = None
             if outcome == 'ok+child':
                 cname = f'N{next(counter)}'
@@ -277,6 +282,10 @@ def run_shard(ctx):
     base = ctx.seed * 17_000_023 + ctx.shard * 1_000_133
     for k in range(ctx.n(1000, 15000)):
         c04.check_request(ctx, base + k, k, protocol=True, merge=False)
+    # the stream clause ("in list order, without gaps or repeats") gets its own share: the stream template family only
+    for k in range(ctx.n(600, 9000)):
+        ctx.count("stream_family_requests")
+        c04.check_request(ctx, (base + k) * 11 + 6, k + 1, protocol=True, merge=False)
     part_b(ctx)
 
 
